@@ -9,10 +9,11 @@
    lane whose unlock was refused (_dispatch_queue_invoke_finish).  The model is Model/HLane.v; each dq_state transition in
    it IS the body regenerated from the source (Gen_dqstate), with the arguments the code passes.
    Out of scope (decided on the implementation by the stress oracle only): concurrent inner queues, dispatch_sync /
-   barriers / waiters through levels, workloop bottoms, retargeting (also before activation), suspension.  Fair termination
-   is not proved: the theorems say nothing is left behind at quiescence and (C03_hlane_no_stuck_thread) no state is stuck. *)
+   barriers / waiters through levels, workloop bottoms, retargeting (also before activation), suspension.  Termination under
+   a fair scheduler is not stated as one theorem; its three ingredients are: nothing is left behind at quiescence, no state is
+   stuck (C03_hlane_no_stuck_thread), no execution livelocks (C03_hlane_no_livelock: a potential function). *)
 From Coq Require Import ZArith Bool List.
-From Verif Require Import Word DqFields Conc HLane HLane_inv HLane_proofs HLane_progress.
+From Verif Require Import Word DqFields Conc HLane HLane_inv HLane_proofs HLane_progress HLane_measure HLaneR HLaneR_proofs.
 Import ListNotations.
 Local Open Scope Z_scope.
 
@@ -125,6 +126,66 @@ Theorem C03_hlane_async_never_blocks : forall F, forest_ok F -> forall s t l p r
   reach F s -> stk s t = (l, p) :: r -> is_drain p = false -> enabled F s t.
 Proof. exact async_never_blocks. Qed.
 Print Assumptions C03_hlane_async_never_blocks.
+
+(* 6. termination measure: a potential Phi (per frame: a constant per program point, 2 * T l + ... for the frames of a
+      push on lane l with T l = 24 * 3 ^ depth l; 8 per item and 18 per lane object in a list; T l on the DIRTY bit of a
+      LOCKED lane; 20 per bottom in its root queue) that every step and every worker pick-up strictly decreases and only a
+      new dispatch_async raises.  The DIRTY retry of a bottom and the invoke_finish re-enqueue of an inner lane are paid
+      for by the MAKE_DIRTY wakeup that caused them.  For executions confined to a finite, target-closed set Ls of lanes
+      and a finite set L of threads: *)
+Theorem C03_hlane_step_decreases : forall F, forest_ok F -> forall Ls L, NoDup Ls -> NoDup L -> forall s t o s',
+  Inv3 F s -> In t L -> (forall l p, In (l, p) (stk s t) -> In l Ls) -> gstep F s t o = Some s' ->
+  Phi F Ls L s' + 1 <= Phi F Ls L s.
+Proof. exact step_decreases. Qed.
+Print Assumptions C03_hlane_step_decreases.
+
+Theorem C03_hlane_execution_bound : forall F, forest_ok F -> forall Ls L,
+  NoDup Ls -> NoDup L -> (forall l p, In l Ls -> target F l = Some p -> In p Ls) ->
+  forall acts s s',
+  Inv3 F s -> conf Ls s -> forallb act_valid acts = true -> (forall a, In a acts -> In (act_tid a) L /\ begin_lane_in Ls a) ->
+  run F s acts = Some s' ->
+  Inv3 F s' /\ conf Ls s' /\ n_other acts <= Phi F Ls L s - Phi F Ls L s' + raised F acts.
+Proof. exact execution_bound. Qed.
+Print Assumptions C03_hlane_execution_bound.
+
+(* no livelock: from the initial state, the number of steps other than new submissions never exceeds what the
+   submissions paid in (2 * T l + 13 each), whatever the schedule *)
+Theorem C03_hlane_no_livelock : forall F, forest_ok F -> forall Ls L acts s',
+  NoDup Ls -> NoDup L -> (forall l p, In l Ls -> target F l = Some p -> In p Ls) ->
+  forallb act_valid acts = true -> (forall a, In a acts -> In (act_tid a) L /\ begin_lane_in Ls a) ->
+  run F (init_state F) acts = Some s' -> n_other acts <= raised F acts.
+Proof. exact no_livelock. Qed.
+Print Assumptions C03_hlane_no_livelock.
+
+(* the end of every maximal execution: a state in which no thread has an enabled step and no bottom sits in a root
+   queue has run every submitted item of every lane exactly once, in order; and a bottom in the root queue can always be
+   picked up by an idle worker *)
+Theorem C03_hlane_nothing_enabled_all_done : forall F, forest_ok F -> forall s,
+  reach F s -> (forall t o, valid_tid t -> gstep F s t o = None) -> (forall b, rootq s b = 0) ->
+  forall l, lst s l = [] /\ rev (started s l) = zrange (nextid s l) /\ token s l = None.
+Proof. exact nothing_enabled_all_done. Qed.
+Print Assumptions C03_hlane_nothing_enabled_all_done.
+
+Theorem C03_hlane_worker_can_begin : forall F s t b f,
+  stk s t = [] -> target F b = None -> rootq s b = 1 -> exists s', begin F s t (CWorker b f) = Some s'.
+Proof. exact worker_can_begin. Qed.
+Print Assumptions C03_hlane_worker_can_begin.
+
+(* 7. the replay machinery (Model/HLaneR.v, used by the correspondence on recorded rounds): the scheduler only ever takes
+      model steps, so every state it reproduces is reachable; the boolean invariant it evaluates on those states is true on
+      every reachable state; the boolean test of a round's forest table decides forest_ok *)
+Theorem C03_hlane_replay_reach : forall F chk every fuel w cs s qs ord done bad s' d o b q,
+  reach F s -> sched F chk every fuel w cs s qs ord done bad = (s', d, o, b, q) -> reach F s'.
+Proof. exact sched_reach. Qed.
+Print Assumptions C03_hlane_replay_reach.
+
+Theorem C03_hlane_inv_b_reach : forall F lanes tids s, forest_ok F -> reach F s -> inv_b F lanes tids s = true.
+Proof. exact inv_b_reach. Qed.
+Print Assumptions C03_hlane_inv_b_reach.
+
+Theorem C03_hlane_table_forest_ok : forall tbl, table_ok_b tbl = true -> forest_ok (forest_of tbl).
+Proof. exact table_forest_ok. Qed.
+Print Assumptions C03_hlane_table_forest_ok.
 
 (* non-vacuity: two inner lanes on one bottom, three submitters, two workers; items of both inner lanes run, in order;
    the run exercises the nested invoke, a refused unlock of an inner lane with the re-enqueue by invoke_finish, the
